@@ -134,14 +134,20 @@ def extract(features, debug_assertions=True, repo=None, quiet=True):
         return out, info
 
 
-def prune_cache(keep=6):
-    """keep the most recent fact directories only (disk is limited)"""
+def prune_cache(keep=80, min_age_s=3600):
+    """drop old fact directories (disk is limited); never touch anything younger than an hour,
+    other checks may be reading it concurrently"""
     d = os.path.join(CACHE, "facts")
     if not os.path.isdir(d):
         return
+    now = time.time()
     ents = sorted((os.path.getmtime(os.path.join(d, e)), e) for e in os.listdir(d))
-    for _, e in ents[:-keep]:
-        shutil.rmtree(os.path.join(d, e), ignore_errors=True)
+    for mt, e in ents[:-keep] if len(ents) > keep else []:
+        if now - mt > min_age_s:
+            shutil.rmtree(os.path.join(d, e), ignore_errors=True)
+    for mt, e in ents:
+        if now - mt > 24 * 3600:
+            shutil.rmtree(os.path.join(d, e), ignore_errors=True)
 
 
 def powerset_configs():
